@@ -325,10 +325,15 @@ def gen_info(tr):
                 str(tr.name_id(f.name)), lean_bool(f.init), lean_bool(f.repr), lean_bool(f.compare),
                 lean_bool(f.kw_only), lean_bool(immutable_annotation(f.type)),
                 lean_bool(f.default_factory is not dataclasses.MISSING)]) + "⟩")
-        cls_terms.append(
-            "  { idx := %d, mod := %s, nameId := %d, qualnameIsName := %s, etype := %s, version := %s, "
-            "flexible := %s, apiKey := %s, headerIdx := %s, params := %s, hasSlots := %s, hasDict := %s, "
-            "hashable := %s, fields := [%s], hashGenerated := %s }" % (
+        refs = []
+        for f in dataclasses.fields(c):
+            for dep in tr.type_deps(f.type):
+                if dep in tr.idx and tr.idx[dep] not in refs:
+                    refs.append(tr.idx[dep])
+        cls_terms.append((
+            "  { idx := %%d, mod := %%s, nameId := %%d, qualnameIsName := %%s, etype := %%s, version := %%s, "
+            "flexible := %%s, apiKey := %%s, headerIdx := %%s, params := %%s, hasSlots := %%s, hasDict := %%s, "
+            "hashable := %%s, fields := [%%s], hashGenerated := %%s, refs := [%s] }" % ", ".join(map(str, refs))) % (
                 tr.idx[c], modkey(modname), tr.name_id(c.__name__), lean_bool(c.__qualname__ == c.__name__),
                 ETYPE.get(etn, ".nested") if etn else ".nested",
                 lean_int(int(getattr(c, "__version__", -1))), lean_bool(getattr(c, "__flexible__", False)),
